@@ -25,6 +25,8 @@ pub struct C08 {
     prefix_defs: Vec<(String, Expr, bool)>,
     /// (name, right-hand side text) of every unit line of the bundled files (own line splitter)
     unit_texts: Vec<(String, String)>,
+    /// (name, expression text) of every quantity line of the bundled files
+    quantity_texts: Vec<(String, String)>,
     ctxs: [Lazy<Context>; 2],
 }
 
@@ -64,7 +66,10 @@ impl C08 {
         let mut unit_texts = unit_lines(rink_core::DEFAULT_FILE.unwrap());
         unit_texts.extend(unit_lines(rink_core::CURRENCY_FILE.unwrap()));
         fams.add("definition text read by the query parser", vec![2, unit_texts.len() as u64]);
-        C08 { fams, names, prefix_defs, unit_texts, ctxs: [Lazy::new(), Lazy::new()] }
+        let mut quantity_texts = quantity_lines(rink_core::DEFAULT_FILE.unwrap());
+        quantity_texts.extend(quantity_lines(rink_core::CURRENCY_FILE.unwrap()));
+        fams.add("quantity definitions evaluated by an own dimensional evaluator", vec![2, quantity_texts.len() as u64]);
+        C08 { fams, names, prefix_defs, unit_texts, quantity_texts, ctxs: [Lazy::new(), Lazy::new()] }
     }
 }
 
@@ -117,6 +122,90 @@ fn unit_lines(text: &str) -> Vec<(String, String)> {
     out
 }
 
+/// (name, expression text) of every quantity line `name ? expr` (own line splitter).
+fn quantity_lines(text: &str) -> Vec<(String, String)> {
+    let mut out = vec![];
+    let mut in_block = false;
+    for raw in text.lines() {
+        let line = match raw.find('#') {
+            Some(i) if !raw[..i].contains('"') => &raw[..i],
+            _ => raw,
+        };
+        let t = line.trim();
+        if in_block {
+            if t.starts_with('}') {
+                in_block = false;
+            }
+            continue;
+        }
+        if t.ends_with('{') {
+            in_block = true;
+            continue;
+        }
+        if t.starts_with("??") || t.starts_with('!') {
+            continue;
+        }
+        if let Some((name, rhs)) = t.split_once(|c: char| c == ' ' || c == '\t') {
+            if let Some(e) = rhs.trim().strip_prefix('?') {
+                if !e.starts_with('?') {
+                    out.push((name.trim().to_string(), e.trim().to_string()));
+                }
+            }
+        }
+    }
+    out
+}
+
+/// Own dimensional evaluation of a quantity expression: names are quantities or base units
+/// (short or long name), products add exponents, quotients subtract, integer powers multiply.
+fn quantity_expr_dims(e: &Expr, q: &std::collections::BTreeMap<String, Dims>, r: &rink_core::loader::Registry) -> Result<Dims, String> {
+    use rink_core::ast::{BinOpExpr, BinOpType};
+    match e {
+        Expr::Unit { name } => {
+            if let Some(d) = q.get(name) {
+                return Ok(d.clone());
+            }
+            let short = r.base_unit_long_names.iter().find(|(_, l)| *l == name).map(|(s, _)| s.clone()).unwrap_or_else(|| name.clone());
+            if r.base_units.contains(&short[..]) {
+                let mut d = Dims::new();
+                d.insert(short, 1);
+                return Ok(d);
+            }
+            Err(format!("`{}` is neither a quantity nor a base unit", name))
+        }
+        Expr::Const { value } => {
+            if numeric_to_rat(value) == Some(rat(1, 1)) {
+                Ok(Dims::new())
+            } else {
+                Err("constant other than 1".into())
+            }
+        }
+        Expr::Mul { exprs } => {
+            let mut d = Dims::new();
+            for x in exprs {
+                d = dims_mul(&d, &quantity_expr_dims(x, q, r)?, 1);
+            }
+            Ok(d)
+        }
+        Expr::BinOp(BinOpExpr { op: BinOpType::Frac, left, right }) => Ok(dims_mul(&quantity_expr_dims(left, q, r)?, &quantity_expr_dims(right, q, r)?, -1)),
+        Expr::BinOp(BinOpExpr { op: BinOpType::Pow, left, right }) => {
+            let k = match &**right {
+                Expr::Const { value } => numeric_to_rat(value).filter(|v| v.is_integer()).and_then(|v| num_traits::ToPrimitive::to_i64(v.numer())),
+                Expr::UnaryOp(u) => match (&u.op, &*u.expr) {
+                    (rink_core::ast::UnaryOpType::Negative, Expr::Const { value }) => numeric_to_rat(value).filter(|v| v.is_integer()).and_then(|v| num_traits::ToPrimitive::to_i64(v.numer())).map(|k| -k),
+                    _ => None,
+                },
+                _ => None,
+            };
+            match k {
+                Some(k) => Ok(dims_pow(&quantity_expr_dims(left, q, r)?, k)),
+                None => Err("exponent is not an integer literal".into()),
+            }
+        }
+        other => Err(format!("unsupported form {}", other)),
+    }
+}
+
 fn cfg_name(c: u64) -> &'static str {
     if c == 0 {
         "bundled"
@@ -130,7 +219,7 @@ impl Space for C08 {
         Meta {
             id: "C08",
             level: "exploration",
-            rule: "every name of the loaded registry (all units and all stored definitions), in both configurations (bundled definitions; bundled + currency.units + currency snapshot): the stored value equals Context::eval of the stored definition, its dimensionality uses declared base units only, alias chains end at a real definition; plus every prefix line of the bundled files (text re-read with rink's parser, evaluated by the runtime evaluator in the loaded context, compared with the prefix table and, for long prefixes, with the unit of the same name); plus seven whole-database checks (silent error-free load with fd 1 captured, identical Debug dumps of two loads, quantity injectivity, doc/category ownership, no temporaries, prefix table). Non-trivial = the name exists in that configuration; distinct by (config, name/check)".into(),
+            rule: "every name of the loaded registry (all units and all stored definitions), in both configurations (bundled definitions; bundled + currency.units + currency snapshot): the stored value equals Context::eval of the stored definition, its dimensionality uses declared base units only, alias chains end at a real definition; plus every prefix line of the bundled files (text re-read with rink's parser, evaluated by the runtime evaluator in the loaded context, compared with the prefix table and, for long prefixes, with the unit of the same name); plus every quantity line `name ? expr`: the stored dimensionality must be the one an own exponent-vector evaluation of the expression over the loaded quantity table gives; plus seven whole-database checks (silent error-free load with fd 1 captured, identical Debug dumps of two loads, quantity injectivity, doc/category ownership, no temporaries, prefix table). Non-trivial = the name exists in that configuration; distinct by (config, name/check)".into(),
             assumptions: vec!["`Debug` output of Registry shows every field (derive(Debug))".into()],
             exhaustive: true,
             extra: json!({"families": self.fams.summary(), "whole_database_checks": GLOBAL}),
@@ -143,6 +232,9 @@ impl Space for C08 {
         let (f, d) = self.fams.locate(idx);
         if f == 0 {
             format!("{}: {}", cfg_name(d[0]), GLOBAL[d[1] as usize])
+        } else if f == 4 {
+            let (n, r) = &self.quantity_texts[d[1] as usize];
+            format!("{}: quantity `{} ? {}`", cfg_name(d[0]), n, r)
         } else if f == 3 {
             let (n, r) = &self.unit_texts[d[1] as usize];
             format!("{}: text `{} {}`", cfg_name(d[0]), n, r)
@@ -238,6 +330,44 @@ impl Space for C08 {
                         }
                     }
                 }
+            }
+            return out;
+        }
+        if f == 4 {
+            // Each quantity names the dimensionality its own definition describes.  The loader
+            // computes it with a separate evaluator (eval_quantity); here the text is re-read and
+            // evaluated by the harness's exponent-vector algebra over the loaded quantity table.
+            let (name, rhs) = &self.quantity_texts[d[1] as usize];
+            let ctx = self.ctxs[c as usize].get(|| load(c).0);
+            let r = &ctx.registry;
+            let mut out = CaseOut::ok("quantity fixed point").key(key);
+            if self.quantity_texts.iter().filter(|p| &p.0 == name).count() > 1 {
+                out.outcome = "quantity defined more than once (unjudged)".into();
+                return out;
+            }
+            let q: std::collections::BTreeMap<String, Dims> = r.quantities.iter().map(|(d, n)| (n.clone(), d.iter().map(|(k, v)| (k.to_string(), *v)).collect())).collect();
+            let stored = match q.get(name) {
+                Some(d) => d.clone(),
+                None => {
+                    if c == 0 && quantity_lines(rink_core::CURRENCY_FILE.unwrap()).iter().any(|p| &p.0 == name) {
+                        out.outcome = "not in this configuration".into();
+                        return out;
+                    }
+                    return out.viol("quantity of the bundled file is not in the quantity table", name.clone());
+                }
+            };
+            let mut it = rink_core::loader::gnu_units::TokenIterator::new(rhs).peekable();
+            let expr = rink_core::loader::gnu_units::parse_expr(&mut it);
+            match quantity_expr_dims(&expr, &q, r) {
+                Ok(want) => {
+                    if want != stored {
+                        out = out.viol(
+                            "quantity's stored dimensionality differs from what its definition describes",
+                            format!("`{} ? {}` describes {} but {} is stored", name, rhs, dims_str(&want), dims_str(&stored)),
+                        );
+                    }
+                }
+                Err(e) => out.outcome = format!("quantity definition not evaluable by the harness ({})", e),
             }
             return out;
         }
